@@ -468,12 +468,13 @@ func c17Run(tier string, seed int64, idx int) *core.Result {
 
 func init() {
 	core.Register(&core.Prop{
-		ID:         "C17",
-		Level:      "fault_enumeration",
-		Rule:       "families: (source) a peer attached as a0 sends envelopes whose source is equal / different (claims a1) / empty / whose header is absent, then good ones; (isolation) a third peer in the role {stuck writer, failing reader, failing writer, dial error, dial blocking on a gate} while envelope-by-envelope traffic a0<->a1 must keep arriving; (reattach) a1 re-attached before / after the old connection's read (or write) fails; (cancel-busy) the context is cancelled while the serve loop is held inside the rewriting function or the disconnect callback and 2..8 peer read loops are waiting to hand it an envelope; each of the first three combined with cancellation of the proxy's context after every step (quick: 4 positions) and at the end, after which Serve must have returned and no goroutine with Proxy/proxyClient frames may remain at a final state. Each child runs one case (the proxy's goroutines must never leak into another case). Distinct = case tuples; all non-trivial.",
-		Plan:       func(tier string, seed int64) int { return len(c17List(tier)) },
-		Run:        c17Run,
-		Exhaustive: func(string) bool { return false },
+		ID:             "C17",
+		Level:          "fault_enumeration",
+		Rule:           "families: (source) a peer attached as a0 sends envelopes whose source is equal / different (claims a1) / empty / whose header is absent, then good ones; (isolation) a third peer in the role {stuck writer, failing reader, failing writer, dial error, dial blocking on a gate} while envelope-by-envelope traffic a0<->a1 must keep arriving; (reattach) a1 re-attached before / after the old connection's read (or write) fails; (cancel-busy) the context is cancelled while the serve loop is held inside the rewriting function or the disconnect callback and 2..8 peer read loops are waiting to hand it an envelope; each of the first three combined with cancellation of the proxy's context after every step (quick: 4 positions) and at the end, after which Serve must have returned and no goroutine with Proxy/proxyClient frames may remain at a final state. Each child runs one case (the proxy's goroutines must never leak into another case). Distinct = case tuples; all non-trivial.",
+		Plan:           func(tier string, seed int64) int { return len(c17List(tier)) },
+		ThoroughRounds: 8,
+		Run:            c17Run,
+		Exhaustive:     func(string) bool { return false },
 		RequiredStats: func(string) []string {
 			return []string{"hostile_source_envelopes", "healthy_envelopes_delivered", "failure_reports_checked", "reattach_checked", "shutdowns_checked", "hook:proxy.report", "cancel_while_serve_loop_busy"}
 		},
